@@ -284,6 +284,40 @@ ReentrantPrograms ==
   { ReProg("dict", h, 3, t, m, "x") : h \in Rng(DictHosts), t \in 1..3, m \in Rng(DictMutations) } \cup
   { ReProg("set", h, 3, t, m, "x") : h \in Rng(SetHosts), t \in 1..3, m \in Rng(SetMutations) }
 
+\* ---- unbound variables: a name is read, in every kind of scope that can read it, while it has no value ----
+\* The variable x of a function (or of the module) is read before it is assigned, after it was deleted, or is never
+\* assigned at all - by the function body itself, by a nested function, by a lambda, by a comprehension, by a CLASS
+\* BODY nested in the function (which has its own instruction for such a read), by a method of such a class; the value
+\* is then used (an operator, repr, a call) or stored and used later.  Python answers NameError (UnboundLocalError);
+\* an implementation that hands out "no value" as a value fails at the first use.
+\* (Found missing by an independently seeded change: LOAD_CLASSDEREF pushing nil for an unbound cell.)
+UbReaders == << <<"body",      <<"    r = USE">> >>,
+                <<"nested",    <<"    def g():", "        return USE", "    r = g()">> >>,
+                <<"lambda",    <<"    r = (lambda: USE)()">> >>,
+                <<"comp",      <<"    r = [USE for i in (1, 2)]">> >>,
+                <<"classbody", <<"    class C:", "        y = USE", "    r = repr(C.y)">> >>,
+                <<"classstore", <<"    class C:", "        y = x", "    r = C.y + 1">> >>,
+                <<"method",    <<"    class C:", "        def m(self):", "            return USE", "    r = C().m()">> >> >>
+UbStates  == << <<"later",   <<>>, <<"    x = 1">> >>,                      \* assigned only after the read
+                <<"deleted", <<"    x = 1", "    del x">>, <<>> >>,         \* assigned, deleted, read
+                <<"cond",    <<"    if n0:", "        x = 1">>, <<>> >>,    \* assigned on a path that is not taken
+                <<"bound",   <<"    x = 1">>, <<>> >> >>                    \* (control: it has a value)
+UbUses    == << "x + 1", "repr(x)", "x()", "[x, x]", "x.real" >>
+RECURSIVE ReplaceUse(_, _)
+Subst(line, use) ==   \* the reader lines contain the word USE at most once, at the end or before a fixed suffix
+  CASE line = "    r = USE" -> "    r = " \o use
+    [] line = "        return USE" -> "        return " \o use
+    [] line = "    r = (lambda: USE)()" -> "    r = (lambda: " \o use \o ")()"
+    [] line = "    r = [USE for i in (1, 2)]" -> "    r = [" \o use \o " for i in (1, 2)]"
+    [] line = "        y = USE" -> "        y = " \o use
+    [] line = "            return USE" -> "            return " \o use
+    [] OTHER -> line
+ReplaceUse(ls, use) == IF ls = <<>> THEN <<>> ELSE <<Subst(Head(ls), use)>> \o ReplaceUse(Tail(ls), use)
+UnboundPrograms ==
+  { [name |-> "unbound " \o UbReaders[r][1] \o "/" \o UbStates[st][1], use |-> UbUses[u],
+     lines |-> ((<<"n0 = 0", "def f():">> \o UbStates[st][2]) \o ReplaceUse(UbReaders[r][2], UbUses[u])) \o UbStates[st][3] \o <<"    return r", "f()">>] :
+      r \in 1..Len(UbReaders), st \in 1..Len(UbStates), u \in 1..Len(UbUses) }
+
 \* programs whose only legal outcomes need unbounded stack in this implementation: subprocess tier
 FatalPrograms == { [name |-> "unbounded recursion", lines |-> <<"def f():", "    return f()", "f()">>],
                    [name |-> "unbounded recursion through __repr__-like nesting", lines |-> <<"def g(n):", "    return [g(n + 1)]", "g(0)">>] }
